@@ -180,4 +180,10 @@ MUTANTS = [
   "edits": [("ractor/src/actor/supervision.rs", "            || supervisor.get_status() >= super::actor_cell::ActorStatus::Draining", "            || supervisor.get_status() >= super::actor_cell::ActorStatus::Stopping")]},
  {"name": "c07-send-gate-admits-draining", "props": ["C07"], "rules": ["C07.R5"],
   "edits": [("ractor/src/actor/actor_properties.rs", "        if status >= ActorStatus::Draining {\n            // if currently draining", "        if status >= ActorStatus::Stopping {\n            // if currently draining")]},
+ {"name": "c11-local-members-not-filtered", "props": ["C11"], "rules": ["C11.R9"],
+  "edits": [("ractor/src/pg.rs", "            .values()\n            .filter(|a| a.get_id().is_local())\n            .cloned()", "            .values()\n            .cloned()")]},
+ {"name": "c11-members-capped", "props": ["C11"], "rules": ["C11.R9"],
+  "edits": [("ractor/src/pg.rs", "        gs.value().members.values().cloned().collect::<Vec<_>>()", "        gs.value().members.values().take(1024).cloned().collect::<Vec<_>>()")]},
+ {"name": "c11-members-wrong-key", "props": ["C11"], "rules": ["C11.R9"],
+  "edits": [("ractor/src/pg.rs", "pub fn get_members(group_name: &GroupName) -> Vec<ActorCell> {\n    get_scoped_members(&DEFAULT_SCOPE.to_owned(), group_name)", "pub fn get_members(group_name: &GroupName) -> Vec<ActorCell> {\n    get_scoped_members(group_name, group_name)")]},
 ]
